@@ -2,7 +2,7 @@
    Directives used: ExtrOcamlBasic (bool, option, unit, prod, list, sumbool -> OCaml natives)
    and ExtrOcamlString (ascii -> char, string -> char list). nat, N, Z stay Coq datatypes. *)
 From Coq Require Import Extraction ExtrOcamlBasic ExtrOcamlString.
-From RG Require Import Base.Value Pure.CanCall Pure.Rid Pure.Pattern Pure.Lcs Pure.LcsTab Pure.ModelDiff Comp.ResSub Pure.PatternParse Pure.RidPart Pure.Status Pure.Origin Pure.HttpPath Pure.Header Comp.Throttle Spec.Trace Spec.Client Spec.Monitors Spec.AccessMon Pure.Access Pure.Render Comp.Adapter Comp.Lifecycle Comp.EsQueue Pure.Subjects Comp.Gc Spec.HttpMon Comp.SubFsm Comp.CoreKv.
+From RG Require Import Base.Value Pure.CanCall Pure.Rid Pure.Pattern Pure.Lcs Pure.LcsTab Pure.ModelDiff Comp.ResSub Pure.PatternParse Pure.RidPart Pure.Status Pure.Origin Pure.HttpPath Pure.Header Comp.Throttle Spec.Trace Spec.Client Spec.Monitors Spec.AccessMon Pure.Access Pure.Render Comp.Adapter Comp.Lifecycle Comp.EsQueue Pure.Subjects Comp.Gc Spec.HttpMon Comp.SubFsm Comp.CoreKv Pure.ValueDec.
 Set Extraction Optimize.
 Separate Extraction
   CanCall.can_call CanCall.entries
@@ -28,4 +28,5 @@ Separate Extraction
   Gc.remove_count Gc.try_delete
   HttpMon.hmonitor
   SubFsm.step SubFsm.init SubFsm.sst_num SubFsm.can_get
-  CoreKv.kstep CoreKv.kinit CoreKv.ktruth.
+  CoreKv.kstep CoreKv.kinit CoreKv.ktruth
+  ValueDec.decode.
